@@ -487,4 +487,108 @@ def c17(report, rng, tier, findings):
                                     "membership is tested on an attribute of the outer variable (values), not on the objects themselves"]
 
 
-HANDLERS = {'C16': c16, 'C17': c17, 'C09': c09, 'C03': c03, 'C06': c06, 'C15': c15, 'C18': c18, 'C19': c19}
+# ------------------------------------------------------------------------------------------- C10
+
+def nonuniform_or(c):
+    """Does the condition contain a disjunction whose sides mention different variable sets?"""
+    k = c[0]
+    if k == 'or':
+        sets = [frozenset(surface.cond_vars(x)) for x in c[1:]]
+        if len(set(sets)) > 1:
+            return True
+        return any(nonuniform_or(x) for x in c[1:])
+    if k == 'and':
+        return any(nonuniform_or(x) for x in c[1:])
+    if k == 'not':
+        # negation turns a conjunction into a disjunction: treat and/or alike below a not
+        inner = c[1]
+        if inner[0] in ('and', 'or'):
+            sets = [frozenset(surface.cond_vars(x)) for x in inner[1:]]
+            return len(set(sets)) > 1 or any(nonuniform_or(('not', x)) for x in inner[1:])
+        return nonuniform_or(inner)
+    return False
+
+
+def c10(report, rng, tier, findings):
+    n = n_cases(tier, 300, 4000)
+    cases = []
+    for i in range(n):
+        nfree = rng.choice((1, 1, 2))
+        nv = nfree + 1
+        u = nfree                      # the universal variable is declared last (ids 0..nfree-1 are free)
+        cfg = gen.Cfg(n_vars=(nv, nv), n_objs=(2, 4), depth=2, preds=False, share_domain=0.3, empty_domain=0.0,
+                      int_range=(0, 3))
+        base = gen.gen_case(rng, cfg, f'c{i}')
+        free_ids = list(range(nfree))
+        mode = rng.choice(('both', 'both', 'both', 'free_only', 'u_only'))
+        ids = {'both': list(range(nv)), 'free_only': free_ids, 'u_only': [u]}[mode]
+        g = gen.CondGen(rng, cfg, ids)
+        body = g.cond(rng.randint(0, 2))
+        outer = []
+        if rng.random() < 0.35:
+            og = gen.CondGen(rng, cfg, free_ids)
+            outer = [og.cond(rng.randint(0, 1))]
+        # universal domain: 1-4 values, possibly with two objects carrying equal attribute values
+        sel = [('var', v) for v in free_ids]
+        rng.shuffle(sel)
+        case = dict(base)
+        # the universal variable ranges over a non-empty domain of the root class
+        all_objs = [('o', j) for j, _, _ in base['objs']]
+        uraw = rng.sample(all_objs, rng.randint(1, min(4, len(all_objs))))
+        case['vars'] = [v if v[0] != u else (u, 'A', uraw) for v in base['vars']]
+        case.update({'sel': sel, 'cond': outer or None, 'forall': (u, [body]), 'entity': len(sel) == 1,
+                     'fa_mode': mode})
+        cases.append(case)
+    report.rule = ("queries an(set_of(free, [outer,] for_all(u, c))) with 1-2 free variables and a universal variable over 1-4 "
+                   "objects; c mentions the universal and the free variables, only the free ones, or only the universal one; "
+                   "optionally conjoined with an outer condition; compared with {f | all(c(f,u) for u in U)}; caching on and off, "
+                   "two evaluations; non-trivial = the universal domain has >= 2 values and the answer is neither empty nor everything")
+
+    def nontriv(case, res):
+        return res['dom_sizes'].get(case['forall'][0], 0) >= 2 and nontrivial_filter(
+            {**case, 'vars': [v for v in case['vars'] if v[0] != case['forall'][0]]},
+            {**res, 'dom_sizes': {k: v for k, v in res['dom_sizes'].items() if k != case['forall'][0]}})
+
+    class J(QueryJudge):
+        def __call__(self, case, res, drv):
+            n_before = len(self.report.violations)
+            super().__call__(case, res, drv)
+            # known finding C10-F1: disjunctions over different variable sets (the intersection compares bindings of
+            # different shapes) - attributed only if the model (which transliterates ForAll) reproduces the answer
+            new = self.report.violations[n_before:]
+            u = case['forall'][0]
+            body_vars = set().union(*[surface.cond_vars(c) for c in case['forall'][1]])
+            if new and case.get('cond') and body_vars <= {u} and 'C05-F3' in self.findings:
+                keep = []
+                for what, payload in new:
+                    off_ok = all(canon(o[1], case) == payload.get('expected') for k, cfg in res['impl'].items()
+                                 if k.startswith('off') for o in cfg['outs'] if o[0] == 'rows')
+                    if '(caching on' in what and off_ok:
+                        self.known('C05-F3')
+                    else:
+                        keep.append((what, payload))
+                self.report.violations[n_before:] = keep
+                new = keep
+            if new and nonuniform_or(case['forall'][1][0]) and 'C10-F1' in self.findings:
+                model = drv['model']
+                model_obs = canon(model[1], case) if model[0] == 'rows' else model
+                keep = []
+                for what, payload in new:
+                    if payload.get('observed') == model_obs:
+                        self.known('C10-F1')
+                    else:
+                        keep.append((what, payload))
+                self.report.violations[n_before:] = keep
+    judge = J(report, findings, 'C10', nontrivial=nontriv)
+    for c in cases:
+        report.count('mode_' + c['fa_mode'])
+        report.count('universal_values_%d' % len([1 for v in c['vars'] if v[0] == c['forall'][0]][0:1]))
+    run_query_cases(report, cases, {'caching': (False, True), 'evals': 2}, judge)
+    return ['EqlModel.Props.C10'], [
+        "non-empty universal domain",
+        "the theorem covers conditions whose disjunctions mention the same variables on both sides (every true output binds "
+        "all variables of the condition); other shapes: known finding C10-F1",
+        "caching on: covered by correspondence, subject to C05-F1"]
+
+
+HANDLERS = {'C10': c10, 'C16': c16, 'C17': c17, 'C09': c09, 'C03': c03, 'C06': c06, 'C15': c15, 'C18': c18, 'C19': c19}
